@@ -19,11 +19,10 @@ def one(job):
             if r.returncode:
                 return e, s, pid, 'n/a'
         try:
-            import py_compile
             for dp, _, fns in os.walk(d + '/src'):
                 for fn in fns:
                     if fn.endswith('.py'):
-                        py_compile.compile(os.path.join(dp, fn), doraise=True, cfile=os.devnull)
+                        compile(open(os.path.join(dp, fn), encoding='utf-8').read(), fn, 'exec')
         except Exception:
             return e, s, pid, 'n/a'
         env = dict(os.environ, VERIF_REPO=d, VERIF_EVIDENCE_DIR=d + '/ev')
